@@ -128,7 +128,7 @@ Print Assumptions polar_cone_certified.
    `dedup cands past` = the loop over `accepted_shells` filtering `past_substructs`; `dedup_ref past cands` = the
    sub-list of cands whose substructure is neither in `past` nor carried by an earlier candidate. *)
 From E3FP Require Import Base.Prelude Base.ZSet Model.Geometry Model.Stereo Model.Fprint Model.E3FP
-  Gen.Constants Gen.AngleTable Proofs.E3FPDedup Proofs.E3FPIter Proofs.E3FPIterTerm Proofs.E3FPIterRun Proofs.E3FPIterExp.
+  Gen.Constants Gen.AngleTable Proofs.E3FPDedup Proofs.E3FPIter Proofs.E3FPIterTerm Proofs.E3FPIterRun Proofs.E3FPIterExp Proofs.GeomLaws Proofs.E3FPIterReal.
 
 
 
@@ -158,16 +158,18 @@ Print Assumptions reachable_levels.
 Example reachable_levels_nonvacuous : match ex_iter (-1) with Some st => st_k st =? 2 | None => false end = true.
 Proof. vm_compute. reflexivity. Qed.
 
-(* substructures only grow with the level, provided the neighbour test is monotone in the level ... *)
+(* substructures only grow with the level, provided the neighbour test is monotone in the level from level 1 on
+   (the iteration evaluates it at levels >= 1 only) ... *)
 Theorem substruct_mono : forall D C sc o,
-  (forall k l, 0 <= k -> near D o sc k l = true -> near D o sc (k + 1) l = true) ->
+  (forall k l, 1 <= k -> near D o sc k l = true -> near D o sc (k + 1) l = true) ->
   forall k levels, levels_wf D C sc o k levels -> forall cur rest, levels = cur :: rest ->
   forall a, incl (sub_of cur a) (sub_of (next_level D C o sc (k + 1) levels) a).
 Proof. exact substruct_mono. Qed.
 Print Assumptions substruct_mono.
-(* ... which holds over the integers whenever the squared length unit is not negative *)
+(* ... which holds over the integers whenever the squared length unit is not negative (a radius k * multiplier >= 0
+   at some level k >= 1 forces multiplier >= 0; no sign premise on the multiplier is needed) *)
 Theorem near_mono_ZD : forall (sc : scene ZD) o, 0 <= sc_unit2 ZD sc ->
-  forall k l, 0 <= k -> near ZD o sc k l = true -> near ZD o sc (k + 1) l = true.
+  forall k l, 1 <= k -> near ZD o sc k l = true -> near ZD o sc (k + 1) l = true.
 Proof. exact near_mono_ZD. Qed.
 Print Assumptions near_mono_ZD.
 Example near_mono_ZD_nonvacuous :
@@ -256,7 +258,7 @@ Proof. vm_compute. repeat split; reflexivity. Qed.
 Theorem run_terminates_gen : forall D C fuel o m,
   o_remdup o = true ->
   (forall sc, scene_of D o m = Ok sc ->
-     forall k l, 0 <= k -> near D o sc k l = true -> near D o sc (k + 1) l = true) ->
+     forall k l, 1 <= k -> near D o sc k l = true -> near D o sc (k + 1) l = true) ->
   (length (retained D o m) * length (retained D o m) - length (retained D o m) < fuel)%nat ->
   run D C fuel o m <> Raises ERecursion.
 Proof. exact run_terminates_gen. Qed.
@@ -277,14 +279,61 @@ Theorem run_terminates_capped : forall D C fuel o m,
 Proof. exact run_terminates_capped. Qed.
 Print Assumptions run_terminates_capped.
 
-(* every option setting: the fuel 400 of the executable runs (Exec/RunM1.v) is never exhausted on molecules with
-   at most 20 retained atoms at level -1, nor with any level cap below 400 *)
-Theorem fuel_400_suffices : forall C o m,
+(* ... and over the reals (dictionary RD of Proofs/GeomLaws.v; these two statements use the axioms of Coq's reals) *)
+Theorem near_mono_RD : forall (sc : scene RD) o, (0 <= sc_unit2 RD sc)%R ->
+  forall k l, 1 <= k -> near RD o sc k l = true -> near RD o sc (k + 1) l = true.
+Proof. exact near_mono_RD. Qed.
+Print Assumptions near_mono_RD.
+Theorem run_terminates_RD : forall C fuel o m,
+  o_remdup o = true -> (0 <= m_unit2 RD m)%R ->
+  (length (retained RD o m) * length (retained RD o m) - length (retained RD o m) < fuel)%nat ->
+  run RD C fuel o m <> Raises ERecursion.
+Proof. exact run_terminates_RD. Qed.
+Print Assumptions run_terminates_RD.
+
+(* every option setting, integer dictionary *)
+Theorem run_never_out_of_fuel : forall C fuel o m,
   0 <= m_unit2 ZD m ->
-  (if o_level o =? -1 then (length (retained ZD o m) <= 20)%nat else o_level o < 400) ->
-  run ZD C 400 o m <> Raises ERecursion.
-Proof. exact fuel_400_suffices. Qed.
-Print Assumptions fuel_400_suffices.
+  (if o_level o =? -1
+   then (length (retained ZD o m) * length (retained ZD o m) - length (retained ZD o m) < fuel)%nat
+   else (Z.to_nat (o_level o) < fuel)%nat) ->
+  run ZD C fuel o m <> Raises ERecursion.
+Proof. exact run_never_out_of_fuel. Qed.
+Print Assumptions run_never_out_of_fuel.
+
+(* positive form: when the options are accepted and the scene can be built (at least one atom retained, every bond
+   type in the table), the run returns a state - fingerprinting succeeds *)
+Theorem run_succeeds : forall C fuel o m sc,
+  check_opts o = true -> scene_of ZD o m = Ok sc -> 0 <= m_unit2 ZD m ->
+  (if o_level o =? -1
+   then (length (retained ZD o m) * length (retained ZD o m) - length (retained ZD o m) < fuel)%nat
+   else (Z.to_nat (o_level o) < fuel)%nat) ->
+  exists st, run ZD C fuel o m = Ok st.
+Proof. exact run_succeeds. Qed.
+Print Assumptions run_succeeds.
+Example run_succeeds_nonvacuous :
+  check_opts (ex_opts (-1)) = true /\ is_ok (scene_of ZD (ex_opts (-1)) ex_mol) = true /\
+  (0 <=? m_unit2 ZD ex_mol) = true /\ length (retained ZD (ex_opts (-1)) ex_mol) = 4%nat.
+Proof. vm_compute. repeat split; reflexivity. Qed.
+
+(* the fuel of the executable runs (Exec/RunM1.v: FUEL = Z.to_nat 20000) is never exhausted on molecules with at most
+   141 retained atoms at level -1 (141^2 - 141 = 19740), nor with any level cap below 20000 *)
+Theorem fuel_exec_suffices : forall C o m,
+  0 <= m_unit2 ZD m ->
+  (if o_level o =? -1 then (length (retained ZD o m) <= 141)%nat else o_level o < 20000) ->
+  run ZD C (Z.to_nat 20000) o m <> Raises ERecursion.
+Proof. exact fuel_exec_suffices. Qed.
+Print Assumptions fuel_exec_suffices.
+Theorem exec_run_succeeds : forall C o m sc,
+  check_opts o = true -> scene_of ZD o m = Ok sc -> 0 <= m_unit2 ZD m ->
+  (if o_level o =? -1 then (length (retained ZD o m) <= 141)%nat else o_level o < 20000) ->
+  exists st, run ZD C (Z.to_nat 20000) o m = Ok st.
+Proof. exact exec_run_succeeds. Qed.
+Print Assumptions exec_run_succeeds.
+Example fuel_exec_nonvacuous :
+  (o_level (ex_opts (-1)) =? -1) = true /\ Nat.leb (length (retained ZD (ex_opts (-1)) ex_mol)) 141 = true /\
+  ex_k (run ZD e3fp_consts (Z.to_nat 20000) (ex_opts (-1)) ex_mol) = Some 2.
+Proof. vm_compute. repeat split; reflexivity. Qed.
 
 (* ---- atom masks ------------------------------------------------------------------------------------------------- *)
 Theorem mask_exact : forall o st req mask,
